@@ -28,6 +28,7 @@ import   "github.com/pbenner/autodiff/algorithm/bfgs"
 import   "github.com/pbenner/autodiff/algorithm/newton"
 import   "github.com/pbenner/autodiff/algorithm/rprop"
 import . "github.com/pbenner/threadpool"
+import   "github.com/pbenner/autodiff/verifhook"
 
 /* -------------------------------------------------------------------------- */
 
@@ -115,6 +116,8 @@ func (obj *NumericEstimator) Estimate(gamma ConstVector, p ThreadPool) error {
     }
     g := p.NewJobGroup()
     p.AddRangeJob(0, m, g, func(k int, p ThreadPool, erf func() error) error {
+      verifhook.Yield("scalarEstimator.numeric.job")
+      verifhook.Event("scalarEstimator.numeric", k, p.GetThreadId())
       f := f   [p.GetThreadId()]
       t := t.At(p.GetThreadId())
       s := s.At(p.GetThreadId())
@@ -140,6 +143,7 @@ func (obj *NumericEstimator) Estimate(gamma ConstVector, p ThreadPool) error {
       }
       return nil
     })
+    verifhook.Yield("scalarEstimator.numeric.queued")
     p.Wait(g)
     // sum up results from all threads
     for i := 1; i < r.Dim(); i++ {
